@@ -237,7 +237,40 @@ func EncodeWriter(w io.Writer, privKey crypto.PrivKey, token Tokener, encFn code
 		return err
 	}
 
-	return ipld.EncodeStreaming(w, node, encFn)
+	return EncodeStreaming(w, node, encFn)
+}
+
+// EncodeStreaming is ipld.EncodeStreaming, but also reports a failure of
+// the io.Writer when the encoder itself does not (the DAG-JSON encoder
+// ignores write errors).
+func EncodeStreaming(w io.Writer, node datamodel.Node, encFn codec.Encoder) error {
+	ew := &errWriter{w: w}
+
+	if err := ipld.EncodeStreaming(ew, node, encFn); err != nil {
+		return err
+	}
+
+	return ew.err
+}
+
+// errWriter remembers the first error of the wrapped io.Writer.
+type errWriter struct {
+	w   io.Writer
+	err error
+}
+
+func (e *errWriter) Write(p []byte) (int, error) {
+	if e.err != nil {
+		return 0, e.err
+	}
+
+	n, err := e.w.Write(p)
+	if err == nil && n < len(p) {
+		err = io.ErrShortWrite
+	}
+	e.err = err
+
+	return n, err
 }
 
 // ToDagCbor marshals the Tokener to the DAG-CBOR format.
